@@ -612,6 +612,10 @@ func (a Raw) Same(b Raw) bool {
 	return true
 }
 
+// Identical is Same plus the leftover exponent field of a zero or an infinity (BitsExp shows it): two snapshots of a
+// variable that no operation was entitled to write must be Identical, not just the same value.
+func (a Raw) Identical(b Raw) bool { return a.Same(b) && a.Exp == b.Exp }
+
 // Val converts the snapshot to an exact value.
 func (a Raw) Val() oracle.Val {
 	switch a.Class {
